@@ -181,7 +181,8 @@ def check_vector(ctx, rng, st, flags):
                                   dict(wit, new_flags=flags2, new_flux=fx3, new_error=er3, model=name, fresh=rf3[name][:3], live=rl3[name][:3]))
                     break
         except Exception as exc:
-            ctx.event('live-source-reflagged:refused')
+            # the vector is regular and so is the re-flagged one: a fresh source with these flags fits, so must the live one
+            ctx.violation('reflagged:fit-raised', 'fitting a source object whose flags / values were re-assigned raised: %r' % (exc,), dict(wit, new_flags=flags2))
             rl = None
         if rl is not None:
             ctx.event('pair:live-source-reflagged')
@@ -363,6 +364,7 @@ def run(ctx):
     ctx.exhaustive = True
     ctx.extra['exhaustive_subspace'] = 'flag vectors of length 1..%d' % (4 if ctx.quick else 5)
     ctx.assume('hostile values for ignored slots: 1e+-30, -999, 0, negatives, NaN, +-inf, 1e+-300',
+               'fitters are built with the default remove_resolved=False: with remove_resolved=True every band with a non-zero flag (also 2, 3, 9) takes part in excluding resolved models, a configuration no statement covers',
                'predicted flux within 1e-9 dex of a limit: penalty may or may not apply',
                'limits carry positive finite fluxes (quantifier of C01)',
                '3-D mode: penalties are decided by the numeric reference of C02 (the penalty can move the best distance)')
